@@ -201,8 +201,19 @@ fn run_chunk(id: &str, tier: Tier, verbose: bool) -> ChunkOut {
             let k: usize = parts[1].parse().unwrap();
             let lo = k * SCALAR_CHUNK;
             let hi = (lo + SCALAR_CHUNK).min(crate::sweeps::N_SCALARS as usize);
+            // comparisons of stored qualifier keys with arbitrary strings (every scalar value inside the probe)
+            let stored = purl::Qualifiers::try_from_iter([("k", "1"), ("s", "2"), ("ss", "3"), ("fi", "4"), ("vcs_url", "5"), ("i", "6")]).ok();
             for i in lo..hi {
                 let c = crate::sweeps::scalar(i as u32);
+                if let Some(q) = &stored {
+                    for probe in [c.to_string(), format!("{c}s"), format!("vc{c}_url"), format!("f{c}")] {
+                        let line = match guarded(|| q.iter().map(|(k, _)| format!("{}:{}:{:?}", k.as_str(), *k == *probe.as_str(), k.partial_cmp(probe.as_str()))).collect::<Vec<_>>().join(" ")) {
+                            Ok(l) => l,
+                            Err(m) => format!("PANIC {m}"),
+                        };
+                        out.push(&format!("key-compare|{}", probe.escape_debug()), line, None, verbose);
+                    }
+                }
                 for name in [format!("A{c}"), format!("a{c}"), c.to_string()] {
                     for ty in ["nuget", "pypi", "t"] {
                         let f = ["", name.as_str(), "", ""];
